@@ -801,6 +801,7 @@ fn update_case(ctx: &Ctx, rng: &mut Rng, case: usize, directed: Option<usize>, o
             .collect();
         let mut batch: Vec<(Key, Option<Vec<u8>>)> = Vec::new();
         let mut sig = String::new();
+        let mut generated = false;
         match (directed, r) {
             (Some(0), 0) => {
                 // the first leaf emptied
@@ -856,6 +857,7 @@ fn update_case(ctx: &Ctx, rng: &mut Rng, case: usize, directed: Option<usize>, o
                 sig = format!("first-emptied-second-{s:?}");
             }
             _ => {
+                generated = true;
                 let has_ovf = cur.iter().any(|l| l.1.iter().any(|e| e.2));
                 for l in cur.iter() {
                     let shapes: &[Shape] = if has_ovf && l.1.iter().any(|e| e.2) && rng.chance(1, 2) {
@@ -887,7 +889,7 @@ fn update_case(ctx: &Ctx, rng: &mut Rng, case: usize, directed: Option<usize>, o
         }
         batch.sort_by(|a, b| a.0.cmp(&b.0));
         batch.dedup_by(|a, b| a.0 == b.0);
-        out.count(&format!("batch_{}", if directed.is_some() { sig.split(|c: char| c.is_ascii_digit()).next().unwrap_or("") } else { "generated" }));
+        out.count(&format!("batch_{}", if !generated { sig.split(|c: char| c.is_ascii_digit()).next().unwrap_or("") } else { "generated" }));
         if batch.iter().any(|(_, v)| v.as_ref().map_or(false, |v| v.len() > 1332)) {
             out.count("batch_with_overflow_insert");
         }
